@@ -6,3 +6,6 @@ fp("dask/array/slicing.py", "normalize_slice", "_slice_1d", "new_blockdim", "pos
 
 fp("dask/array/slicing.py", "parse_assignment_indices", "setitem_array", "setitem", "take")
 fp("dask/array/core.py", "Array.__setitem__", "Array.__getitem__")
+
+fp("dask/array/core.py", "slices_from_chunks", "store", "load_store_chunk", "load_chunk", "to_npy_stack", "from_npy_stack")
+fp("dask/array/optimization.py", "fuse_slice", "normalize_slice")
